@@ -77,6 +77,50 @@ def fcidump(ctx):
             k = _str_const(nd.targets[0].slice)
             if k:
                 written[k] = nd.value
+    # datasets written in a loop over (name, value) pairs that a same-module generator / list-returning helper spells out:
+    #   for name, value in _datasets(<parameters>): f[name] = value
+    import copy as _copy
+    for nd in ast.walk(wnode):
+        if isinstance(nd, ast.For) and isinstance(nd.target, ast.Tuple) and len(nd.target.elts) == 2 and \
+                all(isinstance(e_, ast.Name) for e_ in nd.target.elts) and isinstance(nd.iter, ast.Call) and \
+                isinstance(nd.iter.func, ast.Name):
+            kn, vn = nd.target.elts[0].id, nd.target.elts[1].id
+            stores = [st for st in ast.walk(nd) if isinstance(st, ast.Assign) and isinstance(st.targets[0], ast.Subscript)
+                      and isinstance(st.targets[0].value, ast.Name) and st.targets[0].value.id == wf
+                      and isinstance(st.targets[0].slice, ast.Name) and st.targets[0].slice.id == kn
+                      and isinstance(st.value, ast.Name) and st.value.id == vn]
+            helper = p.functions.get(f"{wd.module}.{nd.iter.func.id}")
+            if not stores or helper is None or helper.node is None:
+                continue
+            hp = [a.arg for a in helper.node.args.args]
+            if len(hp) != len(nd.iter.args) or nd.iter.keywords:
+                continue
+            env_ = dict(zip(hp, nd.iter.args))
+
+            class _Sub(ast.NodeTransformer):
+                def visit_Name(self, n_):
+                    if isinstance(n_.ctx, ast.Load) and n_.id in env_:
+                        return _copy.deepcopy(env_[n_.id])
+                    return n_
+            pairs = []
+            for y in ast.walk(helper.node):
+                tv = None
+                if isinstance(y, ast.Yield) and isinstance(y.value, ast.Tuple) and len(y.value.elts) == 2:
+                    tv = y.value
+                elif isinstance(y, (ast.List, ast.Tuple)) and y.elts and all(
+                        isinstance(e_, ast.Tuple) and len(e_.elts) == 2 and _str_const(e_.elts[0]) for e_ in y.elts):
+                    for e_ in y.elts:
+                        pairs.append((_str_const(e_.elts[0]), e_.elts[1]))
+                if tv is not None and _str_const(tv.elts[0]):
+                    pairs.append((_str_const(tv.elts[0]), tv.elts[1]))
+            for k, v in pairs:
+                v2 = _Sub().visit(_copy.deepcopy(v))
+                ast.fix_missing_locations(v2)
+                written.setdefault(k, v2)
+    if not written:
+        ctx.rep.note("write_dqmc: no `f['<name>'] = value` store into the opened file was identified; the FCIDUMP_chol "
+                     "writer / reader agreement rules do not apply")
+        return
     # ---- reader side, on the value graph of _prep_afqmc with its private helpers evaluated in place: local names, the
     # helper the reading was moved to and the container the values travel in (tuple, NamedTuple) play no role
     from ..rules import common as C_
@@ -889,6 +933,7 @@ def prep_dataflow(ctx):
     # QR orthonormalisation of the trial orbitals: sign fix scales the columns of Q by sign(diag R)
     n_fix = 0
     seen = set()
+    fixed_qr = set()
     for e in ev.events:
         if e.kind not in ("assign", "store", "call"):
             continue
@@ -954,6 +999,7 @@ def prep_dataflow(ctx):
                 if qp is None or qp[1] != 0 or sg is None:
                     continue
                 n_fix += 1
+                fixed_qr.add(qp[0].uid)
                 same = qp[0] is sg[0]
                 if form == "*":
                     cols = sg[1] in ("plain", "new,all")
@@ -973,8 +1019,38 @@ def prep_dataflow(ctx):
                        ("Q and R of one qr call; " if same else "Q and R come from different qr calls; ") +
                        (f"column scaling ({form}, {sg[1]})" if cols else
                         f"{form} with sign vector indexed [{sg[1]}] scales rows, not columns"), pa, e.line)
-    ctx.ob("PAIR-3", "prep_afqmc: QR-orthonormalised trial orbitals are sign-fixed (UHF alpha, UHF beta, ROHF)",
-           n_fix >= 3, f"{n_fix} sign fixes found", pa)
+    # every factorisation whose Q is used gets the fix: a qr call with its Q taken and no sign fix is the witness (how many
+    # copies of the fix the source spells out -- three branches or one loop over the orbital blocks -- is not the point)
+    all_qr = {}
+    for e in ev.events:
+        val = e.data if e.kind == "call" else (e.data[1] if e.kind == "assign" else (e.data[2] if e.kind == "store" else None))
+        if not hasattr(val, "op"):
+            continue
+        for x in subterms(val):
+            if x.op == "getitem" and x.args[1].op == "const" and x.args[1].args[0] == 0 and x.args[0].op == "call" and \
+                    (func_name(x.args[0]) or "").endswith("linalg.qr"):
+                all_qr.setdefault(x.args[0].uid, e.line)
+    # ... among the factorisations whose R is looked at (the closed-shell branch discards R: one determinant for both
+    # spins, its column signs cancel in every overlap ratio)
+    r_used = set()
+    for e in ev.events:
+        val = e.data if e.kind == "call" else (e.data[1] if e.kind == "assign" else (e.data[2] if e.kind == "store" else None))
+        if not hasattr(val, "op"):
+            continue
+        for x in subterms(val):
+            if x.op == "getitem" and x.args[1].op == "const" and x.args[1].args[0] == 1 and x.args[0].op == "call" and \
+                    (func_name(x.args[0]) or "").endswith("linalg.qr") and x is not val and x is not strip_wrappers(val):
+                r_used.add(x.args[0].uid)        # read inside an expression, not merely unpacked into a name
+    unfixed = sorted(ln for u, ln in all_qr.items() if u not in fixed_qr and u in r_used)
+    if n_fix < 3:
+        ctx.rep.note(f"prep_afqmc: {n_fix} sign fix(es) spelled out (3 on the reference tree: UHF alpha, UHF beta, ROHF); judged "
+                     f"per factorisation, not by count")
+    if not all_qr:
+        ctx.rep.note("prep_afqmc: no qr call whose Q factor is used was found; the sign-fix rule does not apply")
+    else:
+        ctx.ob("PAIR-3", "prep_afqmc: QR-orthonormalised trial orbitals are sign-fixed (UHF alpha, UHF beta, ROHF)",
+               n_fix >= 1 and not unfixed, f"{n_fix} sign fix(es) for {len(all_qr)} factorisation(s) whose Q is used" +
+               (f"; the Q of the qr call(s) at line(s) {unfixed} is used without one" if unfixed else ""), pa)
 
 
 def no_cross_call_state(ctx):
